@@ -348,7 +348,10 @@ impl FieldMap {
             )));
         }
         let mut ki: HashMap<config::FieldKey, Field> = HashMap::with_capacity(config_mapping.len());
-        for (&k, pos) in config_mapping {
+        // Visits the fields in a fixed order, so that the same error is reported every time.
+        let mut config_fields: Vec<_> = config_mapping.iter().collect();
+        config_fields.sort_unstable_by_key(|(k, _)| **k);
+        for (&k, pos) in config_fields {
             let field = match &pos {
                 config::FieldPos::Index(i) => Ok(Field::ColumnIndex(i.as_zero_based())),
                 config::FieldPos::Label(label) => hm
